@@ -144,10 +144,15 @@ def run(ctx: Ctx) -> int:
 	for n in [1, 2, 3]:
 		cs, envs = srcmodel.load_cases(n)
 		cases += cs
+	# one family of four-operator expressions: a parenthesised operand whose own operands are parenthesised too
+	nested, _ = srcmodel.load_cases(4)
 	if quick:
 		import random
 		rnd = random.Random(ctx.seed)
 		cases = cases[:568] + rnd.sample(cases[568:], 1500)
+		double = [c for c in nested if '((' in c['text'] or '))' in c['text']]
+		nested = double + rnd.sample([c for c in nested if c not in double], 100)
+	cases = cases + nested
 	ctx.log(f'TLC enumerated {len(cases)} expressions x {len(envs)} argument vectors')
 	batches = [(cases[i:i + BATCH], i, envs) for i in range(0, len(cases), BATCH)]
 	with ProcessPoolExecutor(max_workers=16) as ex:
